@@ -70,7 +70,11 @@ pub fn any_symm(t: &SymTree, nmax: usize, with_kinds: bool) -> SymM {
   }
   let kinds = if with_kinds && kani::any() {
     let mask: u16 = kani::any();
+    // fix the capacity first: `insert` grows the bit vector when the value is beyond its
+    // length, and a growth under a symbolic condition is a heap object of symbolic size
     let mut set = BitSet::new();
+    set.insert(15);
+    set.remove(15);
     let mut k = 1;
     while k <= 8 {
       if mask & (1 << k) != 0 {
@@ -127,7 +131,7 @@ mod proofs {
   fn find_all_exact(nmax: usize) {
     let t = any_tree(nmax, 0);
     let m = any_symm(&t, nmax, true);
-    let g = mk_grep(&SRC_X[..t.total], t.data.clone());
+    let g = mk_grep(SRC_X, t.data.clone());
     let start: usize = kani::any();
     kani::assume(start < t.n);
     let (last, _) = subtree_info(t.n, &t.parent);
@@ -161,7 +165,7 @@ mod proofs {
   fn outermost(nmax: usize) {
     let t = any_tree(nmax, 0);
     let m = any_symm(&t, nmax, false);
-    let g = mk_grep(&SRC_X[..t.total], t.data.clone());
+    let g = mk_grep(SRC_X, t.data.clone());
     let start: usize = kani::any();
     kani::assume(start < t.n);
     let (last, _) = subtree_info(t.n, &t.parent);
@@ -210,7 +214,7 @@ mod proofs {
   fn replace_all_disjoint(nmax: usize) {
     let t = any_tree(nmax, 0);
     let m = any_symm(&t, nmax, false);
-    let g = mk_grep(&SRC_X[..t.total], t.data.clone());
+    let g = mk_grep(SRC_X, t.data.clone());
     let edits = g.root().replace_all(&m, ConstR);
     let mut prev_end = 0;
     let mut i = 0;
